@@ -185,8 +185,12 @@ def run(ctx):
     groups, order = {}, []
     group(bad, cases, groups, order)
 
+    def out_of_domain(k):
+        return groups[k][0].get("error_class") == "invalid_definition"
+
     def unlisted_v1():
-        return [k for k in order if groups[k][1] == 1 and not is_known(ctx, groups[k][0])]
+        return [k for k in order if groups[k][1] == 1 and not is_known(ctx, groups[k][0])
+                and not out_of_domain(k)]
 
     # widened farm run (quick tier): something is wrong (broken obligation / tie / translator, or a
     # verdict-2 disagreement) but no concrete failing input has shown up yet
@@ -207,7 +211,11 @@ def run(ctx):
             cases = cases + wres["cases"]
 
     v1u = unlisted_v1()
-    v1k = [k for k in order if groups[k][1] == 1 and k not in v1u]
+    ood = [k for k in order if out_of_domain(k)]
+    for k in ood:
+        ctx.log("out of domain (never gates): %d package(s) whose definition file itself does not compile: %s" % (
+            len(groups[k][2]), [c.get("label") for c in groups[k][2]][:5]))
+    v1k = [k for k in order if groups[k][1] == 1 and k not in v1u and k not in ood]
     v2 = [k for k in order if groups[k][1] == 2]
     # representatives: smallest definition of each group, unlisted verdict-1 groups minimised on the
     # real generators (at most five = the replay slots, in parallel)
@@ -295,6 +303,7 @@ def run(ctx):
                 "render_expr": tie.get("render"), "interface_signature_tables_cover": tie.get("isigs_cover")},
         "widened_farm_run": widened,
         "secondary_problems": secondary,
+        "out_of_domain_invalid_definitions": sum(len(groups[k][2]) for k in ood),
         "samples": [bl.view(c) for c in (cases[:2] + cases[-2:])],
         "disagreements": len(bad),
         "generate_seconds_median": sorted(c["obs"]["secs"] for c in cases)[len(cases) // 2] if cases else 0,
@@ -310,6 +319,8 @@ def nontrivial(c):
         return (not (f.get("GenJSON") and f.get("GenYAML") and f.get("GenText")) or f.get("CaseInsensitive")
                 or f.get("DisableTraits") or c.get("parsable_some")
                 or len(c.get("trait_kinds", [])) + len(c.get("shapes", [])) > 0)
+    if c["tool"] == "multi":
+        return True
     if c["tool"] == "gerror":
         return bool(f.get("SkipConvertGen")) or len(c.get("shapes", [])) > 0
     return len(c.get("shapes", [])) > 0
